@@ -12,19 +12,20 @@ import vf
 PROP = 'C05'
 FLAGS = ['-g', '-fsanitize=address,undefined', '-fno-sanitize-recover=all', '-fno-omit-frame-pointer']
 ENV = {'ASAN_OPTIONS': 'abort_on_error=1:detect_leaks=1:allocator_may_return_null=1:handle_abort=0:handle_segv=0:detect_stack_use_after_return=0',
-       'UBSAN_OPTIONS': 'halt_on_error=1:abort_on_error=1:print_stacktrace=1', 'LSAN_OPTIONS': 'exitcode=23'}
+       'UBSAN_OPTIONS': 'halt_on_error=1:abort_on_error=1:print_stacktrace=1', 'LSAN_OPTIONS': 'exitcode=23',
+       'HZ_CASE_CPU_SECONDS': '20'}     # a case (one input through all entry points, incl. its truncations / substitutions) that burns 20 s of CPU does not terminate (normal: < 1 s)
 # (generator module, cfg, take every k-th case) - case files are shared with the other checks (cached)
 INPUTS = {
     'quick': [('gen/MC_C02tok', 'gen/MC_C02tok.cfg', 6), ('gen/MC_C03', 'gen/MC_C03atoms_q.cfg', 1), ('gen/MC_C07', 'gen/MC_C07cbor_q.cfg', 4), ('gen/MC_C07', 'gen/MC_C07msgpack_q.cfg', 4),
               ('gen/MC_C07', 'gen/MC_C07ubjson_q4.cfg', 8), ('gen/MC_C07', 'gen/MC_C07bson_tok_q.cfg', 8), ('gen/MC_C07', 'gen/MC_C07cbor_rep.cfg', 1), ('gen/MC_C07', 'gen/MC_C07bson_rep.cfg', 2),
               ('gen/MC_C14', 'gen/MC_C14str_q.cfg', 16), ('gen/MC_C12', 'gen/MC_C12slice_q.cfg', 24), ('gen/MC_C12', 'gen/MC_C12filter_q.cfg', 80), ('gen/MC_C13', 'gen/MC_C13fn_q.cfg', 20),
-              ('gen/MC_C11', 'gen/MC_C11atoms_q.cfg', 12), ('gen/MC_C15', 'gen/MC_C15_q.cfg', 10)],
+              ('gen/MC_C11', 'gen/MC_C11atoms_q.cfg', 12), ('gen/MC_C15', 'gen/MC_C15_q.cfg', 10), ('gen/MC_C05enc', 'gen/MC_C05enc_q.cfg', 1)],
     'thorough': [('gen/MC_C02tok', 'gen/MC_C02tok.cfg', 1), ('gen/MC_C02char', 'gen/MC_C02char_q.cfg', 2), ('gen/MC_C03', 'gen/MC_C03atoms_t.cfg', 1), ('gen/MC_C07', 'gen/MC_C07cbor_q.cfg', 1),
                  ('gen/MC_C07', 'gen/MC_C07cbor_tok_q.cfg', 2), ('gen/MC_C07', 'gen/MC_C07msgpack_q.cfg', 1), ('gen/MC_C07', 'gen/MC_C07msgpack_tok_q.cfg', 2), ('gen/MC_C07', 'gen/MC_C07ubjson_q4.cfg', 1),
                  ('gen/MC_C07', 'gen/MC_C07ubjson_tok_q.cfg', 2), ('gen/MC_C07', 'gen/MC_C07bson_tok_q.cfg', 1), ('gen/MC_C07', 'gen/MC_C07cbor_rep.cfg', 1), ('gen/MC_C07', 'gen/MC_C07msgpack_rep.cfg', 1),
                  ('gen/MC_C07', 'gen/MC_C07ubjson_rep.cfg', 1), ('gen/MC_C07', 'gen/MC_C07bson_rep.cfg', 1), ('gen/MC_C14', 'gen/MC_C14str_q.cfg', 2), ('gen/MC_C12', 'gen/MC_C12slice_q.cfg', 3),
                  ('gen/MC_C12', 'gen/MC_C12filter_q.cfg', 8), ('gen/MC_C12', 'gen/MC_C12seg_q.cfg', 20), ('gen/MC_C13', 'gen/MC_C13fn_q.cfg', 2), ('gen/MC_C13', 'gen/MC_C13wrap_q.cfg', 30),
-                 ('gen/MC_C11', 'gen/MC_C11atoms_q.cfg', 3), ('gen/MC_C11', 'gen/MC_C11pairs_q.cfg', 20), ('gen/MC_C15', 'gen/MC_C15_q.cfg', 2)],
+                 ('gen/MC_C11', 'gen/MC_C11atoms_q.cfg', 3), ('gen/MC_C11', 'gen/MC_C11pairs_q.cfg', 20), ('gen/MC_C15', 'gen/MC_C15_q.cfg', 2), ('gen/MC_C05enc', 'gen/MC_C05enc_t.cfg', 1)],
 }
 
 
@@ -60,8 +61,14 @@ def sig(r):
         s['input'] = json.dumps(c['s'])[:300]
     elif 'patch' in c:
         s['input'] = json.dumps(c['patch'])[:300]
+    elif c.get('k') == 'enc':
+        s['input'] = json.dumps({'v': c.get('v'), 'o': c.get('o')})[:500]
+    if r.get('x'):
+        s['variant'] = r['x']
+    if r.get('what') in ('AssertionError', 'ForeignException') and r.get('detail'):
+        s['detail'] = r['detail'][:120]
     if r.get('k') in ('signal', 'terminate'):
-        s['what'] = 'fatal-signal-or-sanitizer-report'
+        s['what'] = 'does-not-terminate' if r.get('sig') == 26 else 'fatal-signal-or-sanitizer-report'
     return s
 
 
@@ -151,8 +158,12 @@ def run(tier):
         rep.violation({'what': 'outcome-rejected-by-spec', 'ep': traces[i]['ep'], 'out': traces[i]['out']}, traces[i], None)
     # de-duplicate violations by (what, ep): one replay per root symptom
     seen, uniq = set(), []
+    known = vf.load_known(PROP)
     for x in rep.violations:
-        key = (x['sig'].get('what'), x['sig'].get('ep'))
+        # a violation that a listed finding explains is grouped under that finding; anything else by (symptom, entry point),
+        # so that a listed finding never hides a different failure of the same entry point
+        kid = next((i for i, e in enumerate(known) if vf.sig_matches(e.get('match', {}), x['sig'])), None)
+        key = ('known', kid) if kid is not None else (x['sig'].get('what'), x['sig'].get('ep'), x['sig'].get('detail'))
         if key not in seen:
             seen.add(key)
             uniq.append(x)
@@ -168,7 +179,10 @@ def run(tier):
     cov['rule'] = ('inputs = the (thinned) case files of the JSON text, binary format, JSON Pointer, JSONPath, JMESPath, JSON Schema and JSON Patch generators; '
                    'expression strings additionally in every truncation up to 24 characters and with characters substituted from a 25-character set; schemas with '
                    'each keyword value replaced by 8 JSON values; every input goes to all entry points of its kind (decoders via bytes/stream/cursor, compilers, '
-                   'evaluators, re-encoders, CSV/TOON/URI parsers for texts); a case is one input; calls are counted by the harness')
+                   'evaluators, re-encoders, CSV/TOON/URI parsers for texts); encoder side (MC_C05enc): 50 values (doubles by bit pattern at every magnitude boundary incl. +-DBL_MAX, '
+                   'subnormals, inf, NaN; integer boundaries; strings; byte strings; big numbers; containers) x option sets (defaults; float_format x precision in full; every other '
+                   'json_options field moved alone through its values; pretty-print layouts with small line length limits) through 12 text / binary encoder entry points; '
+                   'a case is one input; calls are counted by the harness')
     cov['samples'] = [json.loads(x) for x in lines[:3]]
     rep.assumptions += ['out-of-bounds access, undefined behaviour and leaks are detected by ASan/UBSan/LSan acting as sensors (clang default check groups); no coverage-guided search',
                         'per (outcome kind, entry point) only the first failing input is reported']
